@@ -1,0 +1,11 @@
+//go:build verif
+// +build verif
+
+package lql
+
+// VC12ParseSize is what Size.Capture does with a Number token (humanize.ParseBytes).
+func VC12ParseSize(s string) (uint64, error) {
+	var sz Size
+	err := sz.Capture([]string{s})
+	return uint64(sz), err
+}
